@@ -92,7 +92,7 @@ Definition truthy (v : wval) : bool :=
 Definition drop_b (w : wdict) : wdict := filter (fun kv => negb (ends_with "_b" (fst kv))) w.
 
 (** the loop `for rk in return_keep: key = wfn.get(rk); if key is None: continue;
-    ret_wfn[rk] = key; ret_wfn[key] = wfn[key]` *)
+    if key not in wfn: raise ValueError(...); ret_wfn[rk] = key; ret_wfn[key] = wfn[key]` *)
 Fixpoint keep_loop (l : list string) (w ret : wdict) : outcome wdict :=
   match l with
   | [] => Ok ret
@@ -101,10 +101,10 @@ Fixpoint keep_loop (l : list string) (w ret : wdict) : outcome wdict :=
     | None | Some WNone => keep_loop r w ret
     | Some (WStr key) =>
       match dget key w with
-      | None => Err PyKeyError                      (* wfn[key] *)
+      | None => Err Validation                      (* Return quantity does not exist (ValueError) *)
       | Some v => keep_loop r w (dset key v (dset rk (WStr key) ret))
       end
-    | Some _ => Err PyTypeError                     (* not a str: outside the modelled domain *)
+    | Some _ => Err Validation                      (* not a str: `key not in wfn` is True or raises TypeError *)
     end
   end.
 
@@ -263,7 +263,7 @@ Definition return_result (driver : string) (r : rval) : outcome rval :=
   | Some RRSquare =>
     let a := to_arr r in
     let size := zlen (dat a) in
-    let nsq := Z.sqrt size in                        (* int(v.size ** 0.5) *)
+    let nsq := Z.sqrt size in                        (* int(v.size ** 0.5); v.reshape(nsq, nsq) *)
     if nsq * nsq =? size then Ok (RArr {| dat := dat a; shp := [nsq; nsq] |}) else Err Validation
   end.
 
@@ -402,5 +402,6 @@ Definition check_case (c : c20case) : bool :=
   | CWfnProps w e => outcome_eqb (dict_eqb wval_eqb) (wfn_validate w) e
   | CProps n f e =>
     outcome_eqb (list_eqb (fun x y => String.eqb (fst x) (fst y) && arr_eqb (snd x) (snd y))) (props_fields n f) e
-  | CTraj p v e => outcome_eqb (list_eqb Z.eqb) (traj_protocol p v) e
+  | CTraj p v e =>
+    outcome_eqb (list_eqb Z.eqb) (traj_protocol (Some (match p with Some s => s | None => default_trajectory end)) v) e
   end.
